@@ -288,6 +288,181 @@ theorem crash_protocol (d : Dir) (tmp file : String) (chunks : List String) (hne
     simp only [applyOp, htmp]
     exact get_set_same _ _ _
 
+/-! ### the write protocol with buffers -/
+
+/-- primitives that touch only the handle / the path `tmp` and publish nothing -/
+def OnlyTmpB (tmp : String) : BOp → Prop
+  | .openTrunc p => p = tmp
+  | .write p _ => p = tmp
+  | .flush p => p = tmp
+  | .close p => p = tmp
+  | .replace _ _ => False
+  | .remove _ => False
+
+theorem onlyTmpOp_sound (tmp : String) (op : BOp) (h : onlyTmpOp tmp op = true) : OnlyTmpB tmp op := by
+  cases op <;> simp_all [onlyTmpOp, OnlyTmpB]
+
+/-- every open handle was opened on `tmp` and still refers to it -/
+def GoodHs (tmp : String) (fs : Fs) : Prop := ∀ h ∈ fs.hs, h.id = tmp ∧ h.cur = some tmp
+
+theorem flushH_frame (fs : Fs) (tmp file : String) (hne : tmp ≠ file) (hg : GoodHs tmp fs) :
+    GoodHs tmp (flushH fs tmp) ∧ (flushH fs tmp).disk.get file = fs.disk.get file := by
+  unfold flushH
+  cases hf : fs.hs.find? (·.id == tmp) with
+  | none => exact ⟨hg, rfl⟩
+  | some hd =>
+    have hmem : hd ∈ fs.hs := List.mem_of_find?_eq_some hf
+    have hcur := (hg hd hmem).2
+    refine ⟨?_, ?_⟩
+    · intro h hh
+      simp only [List.mem_map] at hh
+      obtain ⟨x, hx, rfl⟩ := hh
+      have := hg x hx
+      split <;> exact this
+    · simp only [hcur]
+      exact get_set_ne _ _ _ _ (Ne.symm hne)
+
+theorem applyB_frame (fs : Fs) (tmp file : String) (hne : tmp ≠ file) (hg : GoodHs tmp fs)
+    (op : BOp) (hop : OnlyTmpB tmp op) :
+    GoodHs tmp (applyB fs op) ∧ (applyB fs op).disk.get file = fs.disk.get file := by
+  cases op with
+  | openTrunc p =>
+    simp only [OnlyTmpB] at hop; subst hop
+    refine ⟨?_, get_set_ne _ _ _ _ (Ne.symm hne)⟩
+    intro h hh
+    simp only [applyB, List.mem_cons] at hh
+    rcases hh with rfl | hh
+    · exact ⟨rfl, rfl⟩
+    · exact hg h (List.mem_filter.mp hh).1
+  | write p c =>
+    simp only [OnlyTmpB] at hop; subst hop
+    refine ⟨?_, rfl⟩
+    intro h hh
+    simp only [applyB, List.mem_map] at hh
+    obtain ⟨x, hx, rfl⟩ := hh
+    have := hg x hx
+    split <;> exact this
+  | flush p =>
+    simp only [OnlyTmpB] at hop; subst hop
+    exact flushH_frame fs p file hne hg
+  | close p =>
+    simp only [OnlyTmpB] at hop; subst hop
+    obtain ⟨h1, h2⟩ := flushH_frame fs p file hne hg
+    refine ⟨?_, h2⟩
+    intro h hh
+    simp only [applyB] at hh
+    exact h1 h (List.mem_filter.mp hh).1
+  | replace s t => cases hop
+  | remove q => cases hop
+
+theorem applyBs_frame (tmp file : String) (hne : tmp ≠ file) (ops : List BOp) :
+    ∀ fs : Fs, GoodHs tmp fs → (∀ op ∈ ops, OnlyTmpB tmp op) →
+      (applyBs fs ops).disk.get file = fs.disk.get file := by
+  induction ops with
+  | nil => intro fs _ _; rfl
+  | cons op t ih =>
+    intro fs hg h
+    obtain ⟨h1, h2⟩ := applyB_frame fs tmp file hne hg op (h op List.mem_cons_self)
+    show (applyBs (applyB fs op) t).disk.get file = _
+    rw [ih _ h1 (fun o ho => h o (List.mem_cons_of_mem _ ho)), h2]
+
+/-- buffered writes change no file -/
+theorem writes_state (tmp : String) (D : Dir) (cur : Option String) (chunks : List String) :
+    ∀ acc : String, applyBs ⟨D, [⟨tmp, cur, acc⟩]⟩ (chunks.map (BOp.write tmp))
+      = ⟨D, [⟨tmp, cur, chunks.foldl (· ++ ·) acc⟩]⟩ := by
+  induction chunks with
+  | nil => intro acc; rfl
+  | cons c t ih =>
+    intro acc
+    show applyBs (applyB ⟨D, [⟨tmp, cur, acc⟩]⟩ (.write tmp c)) (t.map (BOp.write tmp)) = _
+    have : applyB ⟨D, [⟨tmp, cur, acc⟩]⟩ (.write tmp c) = ⟨D, [⟨tmp, cur, acc ++ c⟩]⟩ := by
+      simp [applyB]
+    rw [this, ih]
+    rfl
+
+theorem preB_onlyTmp (tmp : String) (chunks : List String) (k : Nat) :
+    ∀ op ∈ ([BOp.openTrunc tmp] ++ chunks.map (BOp.write tmp) ++ [BOp.close tmp]).take k,
+      OnlyTmpB tmp op := by
+  intro op hop
+  have hmem := List.mem_of_mem_take hop
+  simp only [List.mem_append, List.mem_map, List.mem_cons,
+    List.not_mem_nil, or_false] at hmem
+  rcases hmem with (h | ⟨c, _, h⟩) | h
+  · subst h; rfl
+  · subst h; rfl
+  · subst h; rfl
+
+theorem goodHs_nil (tmp : String) (d : Dir) : GoodHs tmp ⟨d, []⟩ := fun _ h => nomatch h
+
+/-- state after the temporary file was written and closed: it holds the complete text -/
+theorem preB_state (d : Dir) (tmp : String) (chunks : List String) :
+    (applyBs ⟨d, []⟩ ([BOp.openTrunc tmp] ++ chunks.map (BOp.write tmp) ++ [BOp.close tmp])).disk.get tmp
+      = some (concat chunks) := by
+  unfold applyBs
+  rw [List.foldl_append, List.foldl_append]
+  have h1 : List.foldl applyB ⟨d, []⟩ [BOp.openTrunc tmp] = ⟨d.set tmp "", [⟨tmp, some tmp, ""⟩]⟩ := by
+    simp [applyB]
+  rw [h1]
+  have h2 := writes_state tmp (d.set tmp "") (some tmp) chunks ""
+  unfold applyBs at h2
+  rw [h2]
+  simp [applyB, flushH, get_set_same, concat]
+
+theorem crashB_protocol (d : Dir) (tmp file : String) (chunks : List String) (hne : tmp ≠ file)
+    (k : Nat) :
+    (crashB d (protocolB tmp file chunks) k).get file = d.get file ∨
+    (crashB d (protocolB tmp file chunks) k).get file = some (concat chunks) := by
+  let pre := [BOp.openTrunc tmp] ++ chunks.map (BOp.write tmp) ++ [BOp.close tmp]
+  have hprot : protocolB tmp file chunks = pre ++ [BOp.replace tmp file] := by
+    simp [protocolB, pre]
+  unfold crashB
+  rw [hprot]
+  by_cases hk : k ≤ pre.length
+  · left
+    rw [List.take_append_of_le_length hk]
+    exact applyBs_frame tmp file hne _ ⟨d, []⟩ (goodHs_nil tmp d) (preB_onlyTmp tmp chunks k)
+  · right
+    have : (pre ++ [BOp.replace tmp file]).take k = pre ++ [BOp.replace tmp file] := by
+      apply List.take_of_length_le
+      simp; omega
+    rw [this]
+    show (applyBs ⟨d, []⟩ (pre ++ [BOp.replace tmp file])).disk.get file = _
+    unfold applyBs
+    rw [List.foldl_append]
+    show (applyB (applyBs ⟨d, []⟩ pre) (.replace tmp file)).disk.get file = _
+    have htmp := preB_state d tmp chunks
+    have hbne : (tmp == file) = false := by simpa using hne
+    simp only [applyB, hbne, Bool.false_eq_true, ↓reduceIte]
+    show (match (applyBs ⟨d, []⟩ pre).disk.get tmp with
+      | none => applyBs ⟨d, []⟩ pre
+      | some c => _).disk.get file = _
+    rw [htmp]
+    exact get_set_same _ _ _
+
+/-- the shape with the rename inside the `with` block: a stop right after the rename leaves an
+EMPTY published file (the text is still in the buffer of the handle) -/
+theorem crashB_replace_before_close (d : Dir) (tmp file : String) (chunks : List String)
+    (hne : tmp ≠ file) :
+    (crashB d (protocolReplaceBeforeClose tmp file chunks) (chunks.length + 2)).get file = some "" := by
+  let pre := [BOp.openTrunc tmp] ++ chunks.map (BOp.write tmp) ++ [BOp.replace tmp file]
+  have hprot : protocolReplaceBeforeClose tmp file chunks = pre ++ [BOp.close tmp] := by
+    simp [protocolReplaceBeforeClose, pre]
+  have hlen : pre.length = chunks.length + 2 := by simp [pre]
+  unfold crashB
+  rw [hprot, ← hlen, List.take_left']
+  · show (applyBs ⟨d, []⟩ ([BOp.openTrunc tmp] ++ chunks.map (BOp.write tmp) ++ [BOp.replace tmp file])).disk.get file = _
+    unfold applyBs
+    rw [List.foldl_append, List.foldl_append]
+    have h1 : List.foldl applyB ⟨d, []⟩ [BOp.openTrunc tmp] = ⟨d.set tmp "", [⟨tmp, some tmp, ""⟩]⟩ := by
+      simp [applyB]
+    rw [h1]
+    have h2 := writes_state tmp (d.set tmp "") (some tmp) chunks ""
+    unfold applyBs at h2
+    rw [h2]
+    have hbne : (tmp == file) = false := by simpa using hne
+    simp [applyB, hbne, get_set_same]
+  · rfl
+
 /-! ### sessions (several entry points, scaled flags, renames) -/
 
 theorem lookup_filter_ne' {β} (d : List (String × β)) (p q : String) (h : q ≠ p) :
@@ -518,6 +693,12 @@ theorem sfold_inv {α} (ge : α → α → Bool)
       rw [hname] at this
       simpa [namedEvals] using this
     | reset => exact absurd hnr (by simp [NoReset])
+    | bootEval e =>
+      have hs' : SInv ge files₀ seen (sstep ge s (.bootEval e)) := hs
+      have := ih hnr seen (sstep ge s (.bootEval e)) hs'
+      have hname : (sstep ge s (.bootEval e)).name = s.name := rfl
+      rw [hname] at this
+      simpa [namedEvals] using this
 
 theorem srun_inv {α} (ge : α → α → Bool)
     (htot : ∀ a b, ge a b = true ∨ ge b a = true)
@@ -529,5 +710,71 @@ theorem srun_inv {α} (ge : α → α → Bool)
   have hname : (sstep ge s₀ (.reset : Op α)).name = s₀.name := rfl
   rw [hname] at this
   simpa [srun] using this
+
+/-! ### several objects -/
+
+theorem wstep_files {α} (ge : α → α → Bool) (w : World α) (p : Nat × Op α) (n : String) :
+    (wstep ge w p).files.get n = w.files.get n ∨
+    ∃ e sc, p.2 = .eval e sc ∧ e.finite = true ∧ (wstep ge w p).files.get n = some e.x := by
+  unfold wstep
+  cases ho : w.objs[p.1]? with
+  | none => exact Or.inl rfl
+  | some o =>
+    obtain ⟨i, op⟩ := p
+    cases op with
+    | eval e sc =>
+      simp only [sstep]
+      cases hs : saves ge o.best e with
+      | false => left; simp
+      | true =>
+        simp only [↓reduceIte]
+        by_cases hn : n = o.name
+        · right
+          refine ⟨e, sc, rfl, ?_, ?_⟩
+          · simp only [saves, Bool.and_eq_true] at hs; exact hs.1
+          · rw [hn]; exact files_get_set_same _ _ _
+        · left; exact files_get_set_ne _ _ _ _ hn
+    | rename m => exact Or.inl rfl
+    | reset => exact Or.inl rfl
+    | bootEval e => exact Or.inl rfl
+
+theorem wrun_files {α} (ge : α → α → Bool) (ops : List (Nat × Op α)) :
+    ∀ (w : World α) (n : String),
+      (wrun ge w ops).files.get n = w.files.get n ∨
+      ∃ p ∈ ops, ∃ e sc, p.2 = .eval e sc ∧ e.finite = true ∧
+        (wrun ge w ops).files.get n = some e.x := by
+  induction ops with
+  | nil => intro w n; exact Or.inl rfl
+  | cons p t ih =>
+    intro w n
+    have hrun : wrun ge w (p :: t) = wrun ge (wstep ge w p) t := rfl
+    rw [hrun]
+    rcases ih (wstep ge w p) n with h | ⟨q, hq, e, sc, h1, h2, h3⟩
+    · rcases wstep_files ge w p n with h' | ⟨e, sc, h1, h2, h3⟩
+      · left; rw [h, h']
+      · right; exact ⟨p, List.mem_cons_self, e, sc, h1, h2, by rw [h, h3]⟩
+    · right; exact ⟨q, List.mem_cons_of_mem _ hq, e, sc, h1, h2, h3⟩
+
+/-- an operation on object `i` leaves every other object as it was -/
+theorem wstep_other {α} (ge : α → α → Bool) (w : World α) (i j : Nat) (op : Op α) (hij : j ≠ i) :
+    (wstep ge w (i, op)).objs[j]? = w.objs[j]? := by
+  unfold wstep
+  cases ho : w.objs[i]? with
+  | none => rfl
+  | some o => simp [List.getElem?_set_ne (Ne.symm hij)]
+
+/-- an operation on object `i` is the session step of that object on the shared files -/
+theorem wstep_self {α} (ge : α → α → Bool) (w : World α) (i : Nat) (op : Op α) (o : Obj α)
+    (ho : w.objs[i]? = some o) :
+    let s' := sstep ge ⟨o.name, o.best, w.files⟩ op
+    (wstep ge w (i, op)).files = s'.files ∧
+    (wstep ge w (i, op)).objs[i]? = some ⟨s'.name, s'.best⟩ := by
+  have hi : i < w.objs.length := by
+    rcases Nat.lt_or_ge i w.objs.length with h | h
+    · exact h
+    · rw [List.getElem?_eq_none h] at ho; cases ho
+  unfold wstep
+  simp only [ho]
+  exact ⟨trivial, by simp [hi]⟩
 
 end IterFile
